@@ -304,9 +304,9 @@ Proof.
       repeat (apply andb_true_iff in H; destruct H as [H ?]).
       rename H into Hts. rewrite forallb_forall in Hts.
       split; [intros S HS y Hy; eapply set_bounded_b_spec; [apply Hts; exact HS|exact Hy]|].
-      split; [intros y Hy; eapply set_bounded_b_spec; eauto|].
-      split; [intros y Hy; eapply set_bounded_b_spec; eauto|].
-      split; intros y Hy; eapply set_bounded_b_spec; eauto.
+      split; [intros y Hy; exact (set_bounded_b_spec _ _ H3 y Hy)|].
+      split; [intros y Hy; exact (set_bounded_b_spec _ _ H2 y Hy)|].
+      split; intros y Hy; [exact (set_bounded_b_spec _ _ H1 y Hy)|exact (set_bounded_b_spec _ _ H0 y Hy)].
     - rewrite nth_overflow by exact Hge. cbn [n_new n_tm n_eps n_bol n_eol n_eof tm_new tm_sets].
       assert (He0 : bounded m s_empty) by (intros y Hy; rewrite s_mem_empty in Hy; discriminate).
       split; [intros S [<-|[]]; exact He0|]. auto. }
